@@ -96,9 +96,20 @@ impl<const D: usize> ToroidalSpace<D> {
         if !v_f64.is_finite() {
             return None;
         }
-        let wrapped = v_f64.rem_euclid(period);
-        <T as NumCast>::from(wrapped)
+        <T as NumCast>::from(wrap_into_period(v_f64, period))
     }
+}
+
+/// `value mod period` in the half-open interval `[0, period)`.
+///
+/// `f64::rem_euclid` rounds `period - tiny` up to `period` itself for tiny negative inputs
+/// (e.g. `(-1e-20).rem_euclid(1.0) == 1.0`), which is outside the fundamental domain and not a
+/// fixed point of wrapping; `period` is congruent to `0`, so map it there.
+#[inline]
+#[must_use]
+pub(crate) fn wrap_into_period(value: f64, period: f64) -> f64 {
+    let wrapped = value.rem_euclid(period);
+    if wrapped >= period { 0.0 } else { wrapped }
 }
 
 impl<const D: usize> TopologicalSpace for ToroidalSpace<D> {
@@ -115,7 +126,7 @@ impl<const D: usize> TopologicalSpace for ToroidalSpace<D> {
     fn canonicalize_point(&self, coords: &mut [f64]) {
         for (coord, &period) in coords.iter_mut().zip(self.domain.iter()) {
             if period.is_finite() && period > 0.0 {
-                *coord = coord.rem_euclid(period);
+                *coord = wrap_into_period(*coord, period);
             }
         }
     }
